@@ -170,4 +170,9 @@ func runC05(r *Run) {
 	r.Has(mm, "store new(storage.PillarDelegationProto).Name = recv.Delegations[(iter+1)].Name", "name written")
 	r.Has(mm, "store new(storage.PillarDelegationProto).ProducingAddress = recv.Delegations[(iter+1)].Producing.Bytes()", "producing address written")
 	r.Has(mm, "store new(storage.PillarDelegationProto).Weight = recv.Delegations[(iter+1)].Weight.Bytes()", "weight written")
+	r.Has(mm, "store new(storage.ElectionDataProto).Producers = append(new(storage.ElectionDataProto).Producers,list(recv.Producers[(iter+1)].Bytes()))", "each producer slot is written from its own element, by value (Bytes() copies; a slice of the loop variable would alias one slot into all)")
+	r.LoopBodyStraight(mm, "recv.Delegations", "the stored election must be the computed election: no delegation is left out of the record")
+	r.LoopBodyStraight(mm, "recv.Producers", "no producer slot is left out of the record")
+	r.LoopBodyStraight(um, "new(storage.ElectionDataProto).Delegations", "every stored delegation is read back")
+	r.LoopBodyStraight(um, "new(storage.ElectionDataProto).Producers", "every stored producer slot is read back")
 }
